@@ -392,7 +392,10 @@ def judgeStepGrid : M Unit := do
     match gr "Y2", gr "Z2", gr "R2" with
     | some Y2, some Z2, some R2 =>
       if !(G.eqv Y Y2 && G.eqv Z Z2) then bad ln "rehist" "G: a rebuilt copy of an argument denotes a different set"
-      else judge ln "repind" (G.eqv R R2) s!"G {h.op}: results differ on two representations of the same pair of sets"
+      else
+        let zc := ((getField fs "Z").map fun t => (G.parseCgs n t).1).getD []
+        let tag := if (zc.filter fun c => c.f != 0).length ≥ 2 then " tags=grid_two_proper" else " tags="
+        judge ln "repind" (G.eqv R R2) (s!"G {h.op}: results differ on two representations of the same pair of sets" ++ tag)
     | _, _, _ => pure ()
     let lossy := !(G.sub R Z)
     IO.println s!"info {ln} extrapolated={if lossy then 1 else 0} stationary={if G.sub R Y then 1 else 0} universe=0"
@@ -715,6 +718,7 @@ def processLine (ln : Nat) (line : String) : M Unit := do
     if status == "limit" then
       if st.hdr.conv then bad st.hdr.ln "overlong" s!"{st.hdr.dom} {st.hdr.op}: chain not stationary after {k} steps"
       else skip st.hdr.ln "overlong" s!"extrapolation-{st.hdr.op}-{k}"
+    else if status == "capped" then skip st.hdr.ln "overlong" s!"disjunct-cap-{k}"
     else ok st.hdr.ln "chain_end"
   | "exc" :: cls => do
     let st ← get
